@@ -71,6 +71,9 @@ def conditions(tier, seed):
     out.append(Cond('abs_core', 'c07_abs.py', dict(family='core'), func='check_program', timeout=600 if q else 3000,
                     bound='36 statement skeletons written with minimal parentheses: the parsed tree, lifted back, equals the tree that was written (statement kinds, order, nesting, elif order, operands, names)',
                     case_split=['program'], realised=['program text'], twin=False))
+    out.append(Cond('abs_params', 'c07_abs.py', {}, func='check_params', timeout=600 if q else 3000,
+                    bound='5 invocation forms x 0..3 parameters x with / without a comma behind the last one, followed in the same process by a second text with another list and a list without parameters: exactly the parameters written, in order',
+                    case_split=['form', 'n1', 'trailing comma', 'n2', 'trailing comma 2', 'form 2'], realised=['program text']))
     out.append(Cond('abs_gen', 'c07_abs.py', dict(family='gen', seed=seed, count=40 if q else 400), func='check_program', timeout=600 if q else 3000,
                     bound='%d generated programs (seed %d) written with minimal parentheses vs the tree that was written' % (40 if q else 400, seed),
                     case_split=['program'], realised=['program text'], twin=False))
